@@ -10,7 +10,7 @@ from vf.ref import bencode, hashing
 
 ID = "C19"
 LEVEL = "exploration"
-TECHNIQUE = "Hypothesis-generated hostile metafiles (reference-encoded v1/v2/hybrid with '..', '.', '', absolute and separator-embedding names/path elements) with matching candidates in the search directories so that copies are attempted; oracle: snapshot of everything outside the destination (inside a sandbox root) before/after"
+TECHNIQUE = "Hypothesis-generated hostile metafiles (reference-encoded v1/v2/hybrid with '..', '.', '', absolute and separator-embedding names/path elements) with matching candidates in the search directories so that copies are attempted; oracle: snapshot of everything outside the destination (inside a sandbox root) before/after ; zero-length entries, duplicate targets, prefix-named siblings of the destination; thorough tier adds a coverage-guided (atheris/libFuzzer) stage"
 RULE = ("Cases: reference-encoded v1 / v2 / hybrid metafile whose info.name and path elements are drawn from {'..', '.', '', 'a/../../b', "
         "'<absolute sandbox path>/x', chains of '..' up to 6 deep, benign names}, 1..3 files of non-zero bytes with correct hashes, and "
         "candidate files with the matching base name, size and content in the search directory so the copy is attempted. The destination "
